@@ -7,6 +7,7 @@
 
 mod alloc;
 mod canon;
+mod gs3;
 mod net;
 mod reader;
 mod valve;
@@ -23,6 +24,7 @@ fn entries() -> Vec<(&'static str, EntryFn)> {
     let mut v: Vec<(&'static str, EntryFn)> = Vec::new();
     v.extend(reader::entries());
     v.extend(valve::entries());
+    v.extend(gs3::entries());
     v
 }
 
